@@ -528,3 +528,46 @@ def analyse(func, events=None, guard_calls=None):
 
 def terminates(body):
     return _always_terminates(body)
+
+
+def must_follow(node, pred, stop_at=None):
+    """
+    True if, on every normal path from the statement containing `node` to the
+    end of the enclosing function, a later *unconditionally executed* statement
+    satisfies pred(stmt).  Sound for structured code: a loop between node and
+    the candidate, or an early exit, answers False.
+    """
+    st = node
+    while not isinstance(st, ast.stmt):
+        st = st._parent
+    while True:
+        parent = st._parent
+        block = None
+        for name in ('body', 'orelse', 'finalbody'):
+            b = getattr(parent, name, None)
+            if isinstance(b, list) and st in b:
+                block = b
+        if block is None:
+            if isinstance(parent, ast.ExceptHandler):
+                block = parent.body
+            else:
+                return False
+        i = block.index(st)
+        for later in block[i + 1:]:
+            if pred(later):
+                return True
+            if isinstance(later, (ast.Return, ast.Raise, ast.Break, ast.Continue)):
+                return False
+            # an early exit nested in a later compound statement is a path that escapes
+            for sub in own_nodes(later):
+                if sub is not later and isinstance(sub, (ast.Return, ast.Break, ast.Continue)):
+                    return False
+        if isinstance(parent, (ast.FunctionDef, ast.AsyncFunctionDef)):
+            return False
+        if isinstance(parent, (ast.For, ast.While, ast.AsyncFor)):
+            return False
+        if isinstance(parent, ast.ExceptHandler):
+            parent = parent._parent
+        st = parent
+        if st is stop_at:
+            return False
